@@ -1,5 +1,43 @@
 """Claimed checks -> MANIFEST.json (bin/mkmanifest).  One entry per property that has a validated check."""
 CHECKS = {
+    'C06': dict(
+        category='other',
+        text='Structural clauses for every token string: nullness, uninitialised-local and ownership typestate rules (leak, wrong-family, '
+             'double release, use after release) on all paths of jwt_checker_verify through both providers with the checker fully '
+             'symbolic (claim evaluation analysed as its own entry); every slice of the decoded signature handed to a crypto library '
+             'lies inside it (linear reasoning); jwt_parse returns 0 only after two JSON documents decoded and a known string alg; the '
+             'call graph is acyclic and every loop has a recognised bounded shape.',
+        design_ref='DESIGN.md section 3 C06',
+        note='NOT decided: out-of-bounds accesses inside the base64 loops and undefined behaviour in general (would need relational loop '
+             'invariants; goto-analyzer intervals return UNKNOWN); leaks inside the crypto libraries. Fault model: allocations succeed (C17 '
+             'covers failure). Trusted: clang front end, engine, API model.',
+        technique='nullness/ownership/uninitialised typestate over abstract-interpreter paths + loop-shape classification',
+    ),
+    'C07': dict(
+        category='other',
+        text='Modular path analysis of the JWK loaders: each key-type importer (resolved from the ops tables), process_octet and '
+             'jwk_process_values are analysed as entries with the memory rules (json_string_value dereferenced only after a string type '
+             'check, no unassigned length, matching release families) and the per-item contract at every exit (flag with non-empty message, '
+             'or key material stored); jwk_process_one and the loaders are analysed on top of the validated outcome summaries: not JSON => '
+             'set error and no item, otherwise one append per parsed item.',
+        design_ref='DESIGN.md section 3 C07',
+        note='Not decided: what OpenSSL does with hostile numbers, jansson\'s parser, bounds inside base64. The keys-array loop is analysed '
+             'by one iteration under havoc. Fault model: allocations succeed.',
+        technique='nullness/ownership/uninitialised typestate + exit contracts, modular over validated function summaries',
+    ),
+    'C17': dict(
+        category='proof',
+        text='Every allocation routed through jwt_set_alloc (jwt_malloc and each jansson constructor/loader/dumper) is a two-way split on '
+             'every path of the public operations (constructors, verify, generate, JWK loading, set/get): no dereference of an unchecked '
+             'allocation result, no use or return of released storage, no wrong-family release, failures leave through the documented '
+             'channel (C14 exit obligations re-evaluated), no fallible result is discarded, and no library allocation bypasses the '
+             'installed allocator. This is the property\'s "every index k" without a scenario list.',
+        design_ref='DESIGN.md section 3 C17',
+        note='Allocations made by OpenSSL/GnuTLS with their own allocators are outside jwt_set_alloc and outside the property. "Never '
+             'accepts a token it would otherwise reject" is the verdict gate of C01, which quantifies over allocation outcomes. Leaks on '
+             'failure paths are not part of the statement.',
+        technique='fault-splitting abstract interpretation (each routed allocation fails/succeeds) + typestate rules + discarded-result AST rule',
+    ),
     'C13': dict(
         category='proof',
         text='Effect analysis over the whole-program call graph (indirect calls through the provider ops tables and function-pointer '
